@@ -243,7 +243,7 @@ fn c19_insert_body<const C: usize>(functional: bool) {
     std::mem::forget(s);
 }
 
-//@ id=C19 tier=quick timeout=600 bounds="capacity 8 (probe-loop logic only; real tables have capacity >= 64; paths behind rehash are cut); arbitrary table satisfying INV (len == #Valid, len < max_len); one insert(k,v), k,v any u64" desc="MultiMapImpl::insert terminates within capacity probe steps from any table, adds exactly one reachable pair to a non-Valid slot and preserves the table invariant" kernel="MultiMapImpl::insert,MultiMapImpl::free_index,MultiMapImpl::do_insert" args="--no-assertion-reach-checks"
+//@ id=C19 termination=1 tier=quick timeout=600 bounds="capacity 8 (probe-loop logic only; real tables have capacity >= 64; paths behind rehash are cut); arbitrary table satisfying INV (len == #Valid, len < max_len); one insert(k,v), k,v any u64" desc="MultiMapImpl::insert terminates within capacity probe steps from any table, adds exactly one reachable pair to a non-Valid slot and preserves the table invariant" kernel="MultiMapImpl::insert,MultiMapImpl::free_index,MultiMapImpl::do_insert" args="--no-assertion-reach-checks"
 #[kani::proof]
 #[kani::stub(std::fmt::format, crate::verif_support::fmt_stub)]
 #[kani::stub(crate::DbError::new, crate::verif_support::dberror_new_stub)]
@@ -252,7 +252,7 @@ fn c19_insert_terminates_cap8() {
     c19_insert_body::<8>(true);
 }
 
-//@ id=C19 tier=thorough timeout=2400 bounds="capacity 64 (the real minimum); arbitrary table satisfying INV, len < max_len = 60 (growth at len == 60 not in this harness); one insert(k,v), k,v any u64" desc="MultiMapImpl::insert terminates within 64 probe steps from any capacity-64 table incl. tables with no Empty slot, adds exactly one pair, preserves the invariant" kernel="MultiMapImpl::insert,MultiMapImpl::free_index,MultiMapImpl::do_insert" args="--no-assertion-reach-checks"
+//@ id=C19 termination=1 tier=thorough timeout=2400 bounds="capacity 64 (the real minimum); arbitrary table satisfying INV, len < max_len = 60 (growth at len == 60 not in this harness); one insert(k,v), k,v any u64" desc="MultiMapImpl::insert terminates within 64 probe steps from any capacity-64 table incl. tables with no Empty slot, adds exactly one pair, preserves the invariant" kernel="MultiMapImpl::insert,MultiMapImpl::free_index,MultiMapImpl::do_insert" args="--no-assertion-reach-checks"
 #[kani::proof]
 #[kani::stub(std::fmt::format, crate::verif_support::fmt_stub)]
 #[kani::stub(crate::DbError::new, crate::verif_support::dberror_new_stub)]
@@ -303,7 +303,7 @@ fn c19_insert_or_replace_body<const C: usize>(functional: bool) {
     std::mem::forget(s);
 }
 
-//@ id=C19 tier=quick timeout=600 bounds="capacity 8 (probe-loop logic only; real tables have capacity >= 64); arbitrary table satisfying INV, len < max_len; one insert_or_replace(k, always, v)" desc="MultiMapImpl::insert_or_replace (MapImpl::insert, i.e. alias insertion) terminates within capacity probe steps from any table, incl. tables whose non-Valid slots are all tombstones; replaces or inserts exactly one pair" kernel="MultiMapImpl::insert_or_replace,MultiMapImpl::value" args="--no-assertion-reach-checks"
+//@ id=C19 termination=1 tier=quick timeout=600 bounds="capacity 8 (probe-loop logic only; real tables have capacity >= 64); arbitrary table satisfying INV, len < max_len; one insert_or_replace(k, always, v)" desc="MultiMapImpl::insert_or_replace (MapImpl::insert, i.e. alias insertion) terminates within capacity probe steps from any table, incl. tables whose non-Valid slots are all tombstones; replaces or inserts exactly one pair" kernel="MultiMapImpl::insert_or_replace,MultiMapImpl::value" args="--no-assertion-reach-checks"
 #[kani::proof]
 #[kani::stub(std::fmt::format, crate::verif_support::fmt_stub)]
 #[kani::stub(crate::DbError::new, crate::verif_support::dberror_new_stub)]
@@ -312,7 +312,7 @@ fn c19_insert_or_replace_terminates_cap8() {
     c19_insert_or_replace_body::<8>(true);
 }
 
-//@ id=C19 tier=thorough timeout=3600 bounds="capacity 64 (the real minimum); arbitrary table satisfying INV, len < max_len = 60; one insert_or_replace(k, always, v)" desc="MultiMapImpl::insert_or_replace terminates within 64 probe steps from any capacity-64 table incl. tables with no Empty slot (reachable: tombstones are never cleared at capacity 64)" kernel="MultiMapImpl::insert_or_replace" args="--no-assertion-reach-checks"
+//@ id=C19 termination=1 tier=thorough timeout=3600 bounds="capacity 64 (the real minimum); arbitrary table satisfying INV, len < max_len = 60; one insert_or_replace(k, always, v)" desc="MultiMapImpl::insert_or_replace terminates within 64 probe steps from any capacity-64 table incl. tables with no Empty slot (reachable: tombstones are never cleared at capacity 64)" kernel="MultiMapImpl::insert_or_replace" args="--no-assertion-reach-checks"
 #[kani::proof]
 #[kani::stub(std::fmt::format, crate::verif_support::fmt_stub)]
 #[kani::stub(crate::DbError::new, crate::verif_support::dberror_new_stub)]
@@ -391,7 +391,7 @@ fn c19_remove_key_body<const C: usize>(functional: bool, unique_key: bool) -> bo
     full_cycle
 }
 
-//@ id=C19 tier=quick timeout=900 bounds="capacity 8 (probe-loop logic only; paths behind rehash — full cycle without removal, len <= min_len after removal — are cut after the loop); arbitrary table satisfying INV; one remove_key(k)" desc="MultiMapImpl::remove_key terminates within capacity probe steps from any table, removes exactly the reachable pairs of the key, touches no other slot, key no longer found" kernel="MultiMapImpl::remove_key,MultiMapImpl::drop_value,MultiMapImpl::contains" args="--no-assertion-reach-checks"
+//@ id=C19 termination=1 tier=quick timeout=900 bounds="capacity 8 (probe-loop logic only; paths behind rehash — full cycle without removal, len <= min_len after removal — are cut after the loop); arbitrary table satisfying INV; one remove_key(k)" desc="MultiMapImpl::remove_key terminates within capacity probe steps from any table, removes exactly the reachable pairs of the key, touches no other slot, key no longer found" kernel="MultiMapImpl::remove_key,MultiMapImpl::drop_value,MultiMapImpl::contains" args="--no-assertion-reach-checks"
 #[kani::proof]
 #[kani::stub(std::fmt::format, crate::verif_support::fmt_stub)]
 #[kani::stub(crate::DbError::new, crate::verif_support::dberror_new_stub)]
@@ -453,7 +453,7 @@ fn c19_remove_value_body<const C: usize>(functional: bool) -> (bool, bool) {
     (full_cycle, had == 2)
 }
 
-//@ id=C19 tier=quick timeout=900 bounds="capacity 8 (probe-loop logic only; paths behind rehash are cut after the loop); arbitrary table satisfying INV; one remove_value(k,v)" desc="MultiMapImpl::remove_value terminates within capacity probe steps from any table and removes exactly one reachable (k,v) pair iff there is one" kernel="MultiMapImpl::remove_value,MultiMapImpl::remove_index,MultiMapImpl::drop_value" args="--no-assertion-reach-checks"
+//@ id=C19 termination=1 tier=quick timeout=900 bounds="capacity 8 (probe-loop logic only; paths behind rehash are cut after the loop); arbitrary table satisfying INV; one remove_value(k,v)" desc="MultiMapImpl::remove_value terminates within capacity probe steps from any table and removes exactly one reachable (k,v) pair iff there is one" kernel="MultiMapImpl::remove_value,MultiMapImpl::remove_index,MultiMapImpl::drop_value" args="--no-assertion-reach-checks"
 #[kani::proof]
 #[kani::stub(std::fmt::format, crate::verif_support::fmt_stub)]
 #[kani::stub(crate::DbError::new, crate::verif_support::dberror_new_stub)]
@@ -463,7 +463,7 @@ fn c19_remove_value_terminates_cap8() {
     kani::cover!(duplicate, "duplicate pair: only the first is removed");
 }
 
-//@ id=C19 tier=thorough timeout=4800 bounds="capacity 64 (the real minimum); arbitrary table satisfying INV; one remove_value(k,v)" desc="MultiMapImpl::remove_value terminates within 64 probe steps from any capacity-64 table incl. tables with no Empty slot; at most the one matching slot changes" kernel="MultiMapImpl::remove_value,MultiMapImpl::remove_index,MultiMapImpl::rehash" args="--no-assertion-reach-checks"
+//@ id=C19 termination=1 tier=thorough timeout=4800 bounds="capacity 64 (the real minimum); arbitrary table satisfying INV; one remove_value(k,v)" desc="MultiMapImpl::remove_value terminates within 64 probe steps from any capacity-64 table incl. tables with no Empty slot; at most the one matching slot changes" kernel="MultiMapImpl::remove_value,MultiMapImpl::remove_index,MultiMapImpl::rehash" args="--no-assertion-reach-checks"
 #[kani::proof]
 #[kani::stub(std::fmt::format, crate::verif_support::fmt_stub)]
 #[kani::stub(crate::DbError::new, crate::verif_support::dberror_new_stub)]
@@ -478,7 +478,7 @@ fn c19_remove_value_terminates_cap64() {
 // lookups: iter_key / MultiMapIterator::next, value, contains, values_count
 // ---------------------------------------------------------------------------
 
-//@ id=C19 tier=quick timeout=900 bounds="capacity 8 (the iterator never rehashes: same code at every capacity); arbitrary table satisfying INV; whole iteration of iter_key(k) driven to None" desc="iter_key(k) terminates as a whole (each next() within capacity steps, at most max_len+1 next() calls) and yields exactly the reachable Valid pairs of k, skipping tombstones" kernel="MultiMapImpl::iter_key,MultiMapIterator::next,MultiMapImpl::values_count" args="--no-assertion-reach-checks"
+//@ id=C19 termination=1 tier=quick timeout=900 bounds="capacity 8 (the iterator never rehashes: same code at every capacity); arbitrary table satisfying INV; whole iteration of iter_key(k) driven to None" desc="iter_key(k) terminates as a whole (each next() within capacity steps, at most max_len+1 next() calls) and yields exactly the reachable Valid pairs of k, skipping tombstones" kernel="MultiMapImpl::iter_key,MultiMapIterator::next,MultiMapImpl::values_count" args="--no-assertion-reach-checks"
 #[kani::proof]
 #[kani::stub(std::fmt::format, crate::verif_support::fmt_stub)]
 #[kani::stub(crate::DbError::new, crate::verif_support::dberror_new_stub)]
@@ -531,7 +531,7 @@ fn c19_lookup_body<const C: usize>(functional: bool) {
     std::mem::forget(s);
 }
 
-//@ id=C19 tier=quick timeout=600 bounds="capacity 8; arbitrary table satisfying INV; value(k), contains(k), two next() calls" desc="value/contains terminate within capacity probe steps from any table and find the key iff it is reachable from its home slot" kernel="MultiMapImpl::value,MultiMapImpl::contains,MultiMapIterator::next" args="--no-assertion-reach-checks"
+//@ id=C19 termination=1 tier=quick timeout=600 bounds="capacity 8; arbitrary table satisfying INV; value(k), contains(k), two next() calls" desc="value/contains terminate within capacity probe steps from any table and find the key iff it is reachable from its home slot" kernel="MultiMapImpl::value,MultiMapImpl::contains,MultiMapIterator::next" args="--no-assertion-reach-checks"
 #[kani::proof]
 #[kani::stub(std::fmt::format, crate::verif_support::fmt_stub)]
 #[kani::stub(crate::DbError::new, crate::verif_support::dberror_new_stub)]
@@ -540,7 +540,7 @@ fn c19_lookup_terminates_cap8() {
     c19_lookup_body::<8>(true);
 }
 
-//@ id=C19 tier=thorough timeout=3000 bounds="capacity 64 (the real minimum); arbitrary table satisfying INV; value(k) and two next() calls on one iterator" desc="MultiMapIterator::next (value lookups) terminates within 64 probe steps from any capacity-64 table incl. tables with no Empty slot" kernel="MultiMapImpl::value,MultiMapImpl::iter_key,MultiMapIterator::next" args="--no-assertion-reach-checks"
+//@ id=C19 termination=1 tier=thorough timeout=3000 bounds="capacity 64 (the real minimum); arbitrary table satisfying INV; value(k) and two next() calls on one iterator" desc="MultiMapIterator::next (value lookups) terminates within 64 probe steps from any capacity-64 table incl. tables with no Empty slot" kernel="MultiMapImpl::value,MultiMapImpl::iter_key,MultiMapIterator::next" args="--no-assertion-reach-checks"
 #[kani::proof]
 #[kani::stub(std::fmt::format, crate::verif_support::fmt_stub)]
 #[kani::stub(crate::DbError::new, crate::verif_support::dberror_new_stub)]
